@@ -35,7 +35,9 @@ def assist(project, source, position, filename=None, debug=False):
         # (on a continuation line `from` belongs to a raise or a yield)
         iname = line.rpartition(' ')[2]
         package, sep, prefix = iname.rpartition('.')
-        if (not package or package.startswith('.')) and sep:
+        if sep and not package.strip('.'):
+            # only dots were cut off: `from ..x` lists the children of `..`
+            # (`from .a.x` those of `.a`)
             package += '.'
         return prefix, list_packages(project, package, filename)
 
